@@ -141,6 +141,8 @@ def train_case(draw, path=False):
     if path:
         s = draw(E.est_spec(classes=E.SPARSE, n_max=14, d_max=4, iter_max=2, k_max=3, hidden_max=3, n_min=4, d_min=2))
         s["alpha"] = draw(st.sampled_from([0.5, 2.0, 0.1]))
+        if draw(st.booleans()):
+            s["verbose"] = True
     else:
         s = draw(E.est_spec(n_max=14, d_max=3, iter_max=3, k_max=3, hidden_max=3, n_min=3))
     s["x"]["xkind"] = "normal"
